@@ -47,7 +47,7 @@ def judge_api(case, o):
         return "error-on-valid"
     exp = expected_api(case)
     got = o["out"]
-    norm = lambda x: [norm(i) for i in x] if isinstance(x, list) else tuple(x)  # noqa
+    norm = lambda x: [norm(i) for i in x] if isinstance(x, (list, tuple)) else x  # noqa
     if norm(got) != norm(exp):
         return "outputs-mismatch"
     if len(o["bodies"]) != len(case["jobs"]):
